@@ -2222,6 +2222,12 @@ impl QuantizedParameters {
         shift: i8,
         precision: usize,
     ) -> Result<Self, VerifyError> {
+        verify_range!("order", order, ..=MAX_LPC_ORDER)?;
+        verify_true!(
+            "coefs.len",
+            coefs.len() == order,
+            "must be equal to `order`"
+        )?;
         let ret = Self::from_parts(coefs, order, shift, precision);
         // `QuantizedParameter` doesn't have a child component, so calling
         // `verify` here is not redundant whereas it incurs redundant checks
